@@ -112,6 +112,10 @@ def string_grammar():
 
 EXTRA_BODY = [
     {"type": "array", "items": {"type": "integer", "minimum": 1}, "minItems": 1, "maxItems": 3},
+    {"type": "array", "items": {"type": "integer"}, "minItems": 2, "maxItems": 2},
+    {"type": "array", "items": {"type": "string", "minLength": 1}, "minItems": 3, "maxItems": 3},
+    {"type": "array", "items": {"type": "boolean"}, "minItems": 2, "maxItems": 4},
+    {"type": "array", "items": {"type": "integer"}, "maxItems": 0},
     {"type": "array", "items": {"type": "string", "enum": ["a", "b", "c"]}, "uniqueItems": True},
     {"type": "object", "properties": {"a": {"type": "integer", "minimum": 0}, "b": {"type": "string", "minLength": 1}}, "required": ["a"]},
     {"type": "object", "properties": {"a": {"type": "integer"}}, "required": ["a"], "additionalProperties": False},
@@ -119,6 +123,17 @@ EXTRA_BODY = [
     {"oneOf": [{"type": "integer", "multipleOf": 2}, {"type": "string", "minLength": 1}]},
     {"allOf": [{"type": "object", "properties": {"a": {"type": "integer"}}, "required": ["a"]}, {"type": "object", "properties": {"b": {"type": "string"}}, "required": ["b"]}]},
     {"type": "object", "nullable": True, "properties": {"x": {"type": "integer"}}, "required": ["x"]},
+]
+
+
+EXTRA_31 = [
+    {"type": ["number", "null"], "minimum": 0},
+    {"type": ["integer", "string"], "maximum": 10},
+    {"type": ["string", "null"], "minLength": 2},
+    {"type": "number", "exclusiveMinimum": 0, "exclusiveMaximum": 10},
+    {"const": "fixed"},
+    {"type": ["array", "null"], "items": {"type": "integer"}, "minItems": 1},
+    {"type": ["boolean", "integer"]},
 ]
 
 
@@ -165,6 +180,23 @@ def coerce_readings(value):
     return out
 
 
+def array_readings(value, pschema):
+    """Readings of a delimiter-joined wire string for a parameter declared as an array (csv is the default
+    collectionFormat in 2.0 and what `simple` / non-exploded `form` produce in 3.x)."""
+    types = pschema.get("type")
+    types = types if isinstance(types, list) else [types]
+    if not isinstance(value, str) or "array" not in types:
+        return []
+    if value == "":
+        return [[]]
+    parts = value.split(",")
+    typed = []
+    for part in parts:
+        readings = coerce_readings(part)
+        typed.append(readings[-1] if len(readings) > 1 else part)
+    return [parts, typed]
+
+
 def run_shard(spec, emit):
     import schemathesis
     from schemathesis.core.result import Ok
@@ -202,13 +234,21 @@ def run_shard(spec, emit):
             jobs.append((s, location))
     for s in EXTRA_BODY:
         jobs.append((s, "body"))
+        if s.get("type") == "array":
+            jobs.append((s, "query"))
+    # JSON Schema 2020-12 spellings (OpenAPI 3.1 only): type lists, numeric exclusive bounds, const
+    for s in EXTRA_31:
+        jobs.append((s, "body31"))
+        jobs.append((s, "query31"))
     if tier == "thorough":
         for s in extra:
             for location in ("query", "cookie", "body"):
                 jobs.append((s, location))
     rng.shuffle(jobs)
     if tier == "quick":
-        jobs = jobs[:260]
+        special = [j for j in jobs if j[1].endswith("31") or j[0] in EXTRA_BODY]
+        rest = [j for j in jobs if j not in special]
+        jobs = special + rest[:230]
     for schema30, location in jobs:
         if time.monotonic() > deadline:
             emit.count("jobs_skipped_budget")
@@ -216,7 +256,11 @@ def run_shard(spec, emit):
         version = rng.choice(["3.0", "3.0", "3.1", "2.0"])
         if version == "2.0" and location == "cookie":
             version = "3.0"
-        adapted = gen.adapt(schema30, version)
+        if location.endswith("31"):
+            version, location = "3.1", location[:-2]
+            adapted = schema30
+        else:
+            adapted = gen.adapt(schema30, version)
         params = []
         op = {"responses": {"200": {"description": "ok"}}}
         template = "/op"
@@ -345,7 +389,7 @@ def run_shard(spec, emit):
                             from urllib.parse import unquote
 
                             raw = unquote(raw)
-                        readings = coerce_readings(raw)
+                        readings = coerce_readings(raw) + array_readings(raw, pschema)
                         if any(raw == str(a) or raw == a for a in authors_values(pschema)):
                             verdicts.append(None)
                             continue
@@ -358,7 +402,7 @@ def run_shard(spec, emit):
                         for name, (pschema, _) in declared[loc].items():
                             if name in container and not isinstance(container[name], (dict, list)):
                                 kws = set()
-                                for r in coerce_readings(container[name]):
+                                for r in coerce_readings(container[name]) + array_readings(container[name], pschema):
                                     kws = oas_schema.failing_keywords(r, pschema, doc=doc, version=version, mode="request")
                                     if not kws:
                                         break
